@@ -766,7 +766,7 @@ func Check(c *core.Ctx) int {
 	}
 	results := make([]planRes, len(plans))
 	var pwg sync.WaitGroup
-	planSem := make(chan struct{}, 3)
+	planSem := make(chan struct{}, 5)
 	for i := range plans {
 		pwg.Add(1)
 		go func(i int) {
